@@ -4,7 +4,8 @@
 
      - which fields a checkpoint and the two channel kinds persist (tables of Model/CheckpointTable.v);
      - dagChannel.load / pregelChannel.load / channelManager.loadChannels, translated statement by statement:
-       the run continues on the checkpoint's channels ([restore]: ls_cs := cp_cs c);
+       the run continues on the checkpoint's channels ([restore]: ls_cs := cp_cs c), held by the
+       objects Compile built (the unexported zeroValue / emptyStream of a channel are not part of a checkpoint);
      - forwardCheckPoint / clearCheckPoint and the task literals of restoreTasks / createTasks, translated
        field by field: the tasks of [restore c] (key, input, skip flag from SkipPreHandler, the nested
        checkpoint stored under the task's key) and [mk_task] (fresh: no nested checkpoint, pre-handler runs);
@@ -93,7 +94,10 @@ Proof.
              (forall k c, In (k, c) l -> nlist_get k cp = Some c) ->
              (forall k ch dc, In (k, ch) own' -> In (k, dc) l -> load ch dc = dc) ->
              map (fun kc : key * chan V => let key := fst kc in let ch := snd kc in
-                    match nlist_get key cp with Some nCh => (key, load ch nCh) | None => (key, ch) end) own' = l)
+                    match nlist_get key cp with
+                    | Some nCh => (key, compiled_object (load ch nCh))
+                    | None => (key, compiled_object ch)
+                    end) own' = map (fun kc : key * chan V => (fst kc, compiled_object (snd kc))) l)
     by (intros l; induction l as [|[k c] l IH]; intros own' Hm Hget Hl; destruct own' as [|[k0 c0] own']; simpl in *;
         try discriminate; [reflexivity|];
         inversion Hm; subst; rewrite (Hget k c (or_introl eq_refl));
